@@ -27,6 +27,7 @@ func checkC18(p *Prog, r *Report) {
 	rRows := r.Rule("rows", "rows are newline-free, non-empty, sorted and distinct, and the self row is present")
 	rScan := r.Rule("scan-total", "every line of the payload is examined; tagged lines are split into name and description")
 	rOwn := r.Rule("result-owned", "the returned function text lives in memory allocated by this call (not a pooled, global or field buffer a later call rewrites)")
+	checkC18ListGuard(p, r, r.Rule("list-whenever-asked", "with AddListFunction set the list function is appended whatever the payload contains: its generation is guarded by that field (and by earlier steps having succeeded) only"))
 	checkC18OnePayload(p, r, r.Rule("one-list-per-payload", "the programs hand all of their sources to one Converter.From call: the list function is made once, from the whole payload"))
 
 	gf := p.Func(sffPkg, "", "GenFuncList")
@@ -1291,5 +1292,75 @@ func checkC18OnePayload(p *Prog, r *Report, ru *Rule) {
 	}
 	if n < 2 {
 		ru.Unproven("module:Converter.From", token.NoPos, "%d calls of Converter.From found outside its package, at least 2 expected (the listener's Ctrl+I generator and the stand-alone converter)", n)
+	}
+}
+
+// checkC18ListGuard: the branch edges which dominate the call of GenFuncList
+// in the converter are tests of Converter.AddListFunction and of errors
+// being nil; a test of anything else (of the payload's text, say: "does it
+// mention tab_list() already?") can leave a payload without its list.
+func checkC18ListGuard(p *Prog, r *Report, ru *Rule) {
+	gen := p.Func(sffPkg, "", "GenFuncList")
+	if nil == gen {
+		ru.Unproven("GenFuncList", token.NoPos, "not found")
+		return
+	}
+	n := 0
+	for _, fn := range p.Funcs() {
+		if nil == fn.Pkg || fn.Pkg != gen.Pkg {
+			continue
+		}
+		eachInstr(fn, func(i ssa.Instruction) {
+			cc := callCommon(i)
+			if nil == cc || cc.StaticCallee() != gen {
+				return
+			}
+			n++
+			c := fmt.Sprintf("%s→GenFuncList#%d", fnName(fn), n)
+			bad := ""
+			for _, b := range fn.Blocks {
+				ifi := blockIf(b)
+				if nil == ifi || (!edgeDominates(ifi, 0, i) && !edgeDominates(ifi, 1, i)) {
+					continue
+				}
+				dc := decodeCond(ifi.Cond)
+				if nil != dc.Y && isNilConst(dc.Y) {
+					continue /* an error (or other value) compared with nil */
+				}
+				if nil != dc.Y {
+					if k, isC := constInt(dc.Y); isC && 0 == k {
+						if lc, isCall := dc.X.(*ssa.Call); isCall {
+							if bi, isB := lc.Common().Value.(*ssa.Builtin); isB && "len" == bi.Name() {
+								/* len(x) == 0 of the argument list / sources */
+								if _, isParam := stripConv(lc.Common().Args[0], false).(*ssa.Parameter); isParam {
+									continue
+								}
+							}
+						}
+					}
+				}
+				if fv, _ := loadedField(dc.X); nil != fv && "AddListFunction" == fv.Name() {
+					continue
+				}
+				/* The way out of a counting loop (all sources converted). */
+				if bo, isBo := ifi.Cond.(*ssa.BinOp); isBo {
+					if bt, isBasic := bo.X.Type().Underlying().(*types.Basic); isBasic && 0 != bt.Info()&types.IsInteger {
+						switch bo.Op {
+						case token.LSS, token.LEQ, token.GTR, token.GEQ:
+							continue
+						}
+					}
+				}
+				bad = p.Pos(posOf(ifi))
+			}
+			if "" != bad {
+				ru.Bad(c, posOf(i), "whether the list function is generated also depends on a condition other than AddListFunction (%s): a payload can be left without its tab_list although one was asked for", bad)
+			} else {
+				ru.OK(c, posOf(i), "guarded by AddListFunction (and earlier errors) only")
+			}
+		})
+	}
+	if 0 == n {
+		ru.Unproven("shellfuncsfile:GenFuncList-call", token.NoPos, "GenFuncList is not called in its package")
 	}
 }
